@@ -182,11 +182,15 @@ CLAIMS = {
                 "same_open_blocks: one program point is always reached with the same numbers of open blocks and holes. "
                 "exec_refines_skeleton (DS/Proofs/ExecSkel.lean, one lemma per opcode, all 70): whenever the skeleton step is defined "
                 "at a frame's skeleton state, the model VM's exec — for every heap, configuration, operand values and outcome of the "
-                "value-level computation, sub-VM results included — does not end in a structural panic (16 sites: empty-stack pop, "
-                "store/dice/annotation/pool state nobody set up, block or hole pop without push, jump without operand or to a "
-                "negative address) and a continuing exec lands in one of the skeleton's successors with the same code; "
-                "verified_code_runs_clean: hence the dispatch loop started anywhere reachable in verified code never reports a "
-                "structural fault, for any number of dispatches (compositional in the sub-VM runs). The verifier "
+                "value-level computation, sub-VM results included — does not end in a structural panic (17 sites: empty-stack pop, "
+                "push onto a full stack, store/dice/annotation/pool state nobody set up, block or hole pop without push, jump "
+                "without operand or to a negative address) and a continuing exec lands in one of the skeleton's successors with the "
+                "same code and stack array; exec_keeps_room: the invariant Room (1000 slots, height within them, every saved block / "
+                "hole height below the overflow line) is preserved, which is why the loop's single guard 'top == len(stack) => error' "
+                "before each instruction suffices against overflow; "
+                "verified_code_runs_clean: hence the dispatch loop started anywhere reachable in verified code, with room, never "
+                "reports a structural fault — neither underflow nor overflow of the operand stack — for any number of dispatches "
+                "(compositional in the sub-VM runs). The verifier "
                 "(plus: annotation spans lie inside the body's own text and each covers exactly one term of it) is run on the real compiler's output (hook VerifDumpCode) "
                 "for every accepted input — main body and every nested function/computed body — over structural corpora x "
                 "rejected tails, generated, truncated, mutated and adversarial programs. The model VM is tied to rollvm.go by the vm "
